@@ -8,6 +8,7 @@ import vlib
 
 KEY_OVERLAP = "overlapping-activations"
 KEY_APPEND = "failed-index-append-leaves-mapping"
+N_TADDR = 7      # target-address shapes of harness/cmd/c06/main.go targetAddrs (IPv4, hostname, bracketed / zoned IPv6, ports 1 and 65535)
 STATES = ["valid", "revoked", "activated", "absent"]
 KINDS = {"act": 0, "rev": 1, "tick": 2, "list": 3, "stall": 4, "cancel": 4}   # a cancellation is a 0 s stall for the model
 
@@ -118,6 +119,18 @@ def read_fault_cases(rng):
                 a["rfault1"] = k
                 out.append(case([a, act(102, 1)], [0] * 18 + [1] * 14, pre=pre, world=w))
                 out.append(case([dict(a), act(102, 1)], [0] * 3 + [1] * 3 + [0] * 16 + [1] * 14, pre=pre, world=w))
+    return out
+
+
+def target_shape_cases():
+    """a code generated for every target-address shape, activated (alone, against a second activator, across nodes): the
+    mapping must carry the code's address byte for byte and the matching host / port / protocol"""
+    out = []
+    for ta in range(N_TADDR):
+        for w in ("", "cluster", "shared"):
+            out.append(case([act(101, ta % 3)], [], taddr=ta, world=w))
+            out.append(case([act(101, 0), act(102, 1)], [0, 1, 1, 0], taddr=ta, world=w))
+        out.append(case([act(101, 0, fault=9), act(102, 1)], [0] * 20 + [1] * 14, taddr=ta))   # first fails late, second wins
     return out
 
 
@@ -239,7 +252,7 @@ def gen_structured(rng, n, tick_share=0.0):
         if with_tick:
             ti = [i for i, t in enumerate(ths) if t["kind"] == "tick"][0]
             sched.insert(rng.randrange(len(sched) + 1), ti)
-        out.append(case(ths, sched, state=state, qmax=qmax, pre=pre, taddr=rng.randrange(2)))
+        out.append(case(ths, sched, state=state, qmax=qmax, pre=pre, taddr=rng.randrange(N_TADDR)))
     return out
 
 
@@ -427,6 +440,7 @@ def run(ctx, only_cases=None):
         # crash points: service context cancelled at each storage-operation boundary, then a fresh activation
         cases += cancel_cases(ctx.rng, n_act, thorough)
         cases += read_fault_cases(ctx.rng)
+        cases += target_shape_cases()
         # last-second cells: the same overlapping schedules on a code that lives 900 ms
         cases += [last_second(c) for c in parked_cases("") + parked_cases("cluster")]
         cases += [last_second(c) for c in ctx.rng.sample(ex, min(len(ex), 20000 if thorough else 200))]
